@@ -57,7 +57,11 @@ class _YamlStub:
 
 def _plain(x):
     if isinstance(x, dict):
-        return {k: _plain(v) for k, v in x.items()}
+        # yaml.dump writes mappings with sorted keys (sort_keys=True): loading gives them back in that order
+        # (only mappings with string keys are re-ordered here: the order of a 'values' mapping keyed by symbolic costs
+        # does not matter to the loader and sorting it would fork on every pair of costs)
+        keys = sorted(x) if all(isinstance(k, str) for k in x) else list(x)
+        return {k: _plain(x[k]) for k in keys}
     if isinstance(x, (list, tuple)):
         return [_plain(v) for v in x]
     return x
